@@ -28,9 +28,9 @@ fn assert_first_removed(before: &[SystemCommand], after: Option<&Vec<ReactorHand
         j += 1;
     }
 }
-fn assert_single(after: Option<&Vec<ReactorHandle>>, target: SystemCommand, what: &'static str) {
-    assert!(len_of(after) == 1, "{}", what);
-    assert!(id_at(after, 0) == target, "{}", what);
+fn assert_single(after: Option<&Vec<ReactorHandle>>, target: SystemCommand, _what: &'static str) {
+    assert!(len_of(after) == 1, "revoke_*: lists of other tables / other reaction kinds / other keys are untouched");
+    assert!(id_at(after, 0) == target, "revoke_*: lists of other tables / other reaction kinds / other keys are untouched");
 }
 fn one(t: SystemCommand) -> Vec<ReactorHandle> { let mut v = Vec::with_capacity(1); v.push(h(t)); v }
 
@@ -38,7 +38,7 @@ fn one(t: SystemCommand) -> Vec<ReactorHandle> { let mut v = Vec::with_capacity(
 // K.cache.revoke.<table>: revoke_X(key, id) deletes exactly ONE entry of `id` from the list under `key` of table X;
 // all other entries of that list stay (multiset comparison); every other key and every other table is untouched; revoking an id
 // or key that is not there changes nothing (C06; C01: neighbours keep working).
-// Shape: list length L, every content (ids symbolic); a neighbour key (simple tables; for the TypeId-keyed ones only at L<=1 - CBMC cost) / the two sibling lists of the same
+// Shape: list length L, every content (ids symbolic); a neighbour key and, under the SAME key, a list of a sibling table keyed by the same type id (simple tables; for the TypeId-keyed ones only at L<=1 - CBMC cost) / the two sibling lists of the same
 // component (component table) hold one entry with the SAME id.
 // TABLE: 0 any_entity_event, 1 resource, 2 broadcast, 3 despawn(entity key), 4..6 component insertion/mutation/removal.
 // ---------------------------------------------------------------------------------------------------------------
@@ -55,9 +55,9 @@ fn revoke_contract<const TABLE: u8, const L: usize, const NEIGH: bool>()
     let mut i = 0;
     while i < L { let s = any_sys(); before[i] = s; list.push(h(s)); i += 1; }
     // the table under test holds `list` under `key`; every other list under `key`, and the neighbour key, hold [target]
-    if TABLE == 0 { cache.any_entity_event_reactors.insert(key, list); if NEIGH { cache.any_entity_event_reactors.insert(other_key, one(target)); } }
-    else if TABLE == 1 { cache.resource_reactors.insert(key, list); if NEIGH { cache.resource_reactors.insert(other_key, one(target)); } }
-    else if TABLE == 2 { cache.broadcast_reactors.insert(key, list); if NEIGH { cache.broadcast_reactors.insert(other_key, one(target)); } }
+    if TABLE == 0 { cache.any_entity_event_reactors.insert(key, list); if NEIGH { cache.any_entity_event_reactors.insert(other_key, one(target)); cache.broadcast_reactors.insert(key, one(target)); } }
+    else if TABLE == 1 { cache.resource_reactors.insert(key, list); if NEIGH { cache.resource_reactors.insert(other_key, one(target)); cache.broadcast_reactors.insert(key, one(target)); } }
+    else if TABLE == 2 { cache.broadcast_reactors.insert(key, list); if NEIGH { cache.broadcast_reactors.insert(other_key, one(target)); cache.any_entity_event_reactors.insert(key, one(target)); } }
     else if TABLE == 3 { cache.despawn_reactors.insert(ekey, list); cache.despawn_reactors.insert(other_ekey, one(target)); }
     else {
         let mut cr = ComponentReactors{ insertion_callbacks: one(target), mutation_callbacks: one(target), removal_callbacks: one(target) };
@@ -80,15 +80,15 @@ fn revoke_contract<const TABLE: u8, const L: usize, const NEIGH: bool>()
     if TABLE == 0 {
         vlog!("REPLAY-OUTPUT list={:?}", dbg_list(cache.any_entity_event_reactors.get(&key)));
         assert_first_removed(&before, cache.any_entity_event_reactors.get(&key), target);
-        if NEIGH { assert_single(cache.any_entity_event_reactors.get(&other_key), target, OTHER); }
+        if NEIGH { assert_single(cache.any_entity_event_reactors.get(&other_key), target, OTHER); assert_single(cache.broadcast_reactors.get(&key), target, OTHER); }
     } else if TABLE == 1 {
         vlog!("REPLAY-OUTPUT list={:?}", dbg_list(cache.resource_reactors.get(&key)));
         assert_first_removed(&before, cache.resource_reactors.get(&key), target);
-        if NEIGH { assert_single(cache.resource_reactors.get(&other_key), target, OTHER); }
+        if NEIGH { assert_single(cache.resource_reactors.get(&other_key), target, OTHER); assert_single(cache.broadcast_reactors.get(&key), target, OTHER); }
     } else if TABLE == 2 {
         vlog!("REPLAY-OUTPUT list={:?}", dbg_list(cache.broadcast_reactors.get(&key)));
         assert_first_removed(&before, cache.broadcast_reactors.get(&key), target);
-        if NEIGH { assert_single(cache.broadcast_reactors.get(&other_key), target, OTHER); }
+        if NEIGH { assert_single(cache.broadcast_reactors.get(&other_key), target, OTHER); assert_single(cache.any_entity_event_reactors.get(&key), target, OTHER); }
     } else if TABLE == 3 {
         vlog!("REPLAY-OUTPUT list={:?}", dbg_list(cache.despawn_reactors.get(&ekey)));
         assert_first_removed(&before, cache.despawn_reactors.get(&ekey), target);
